@@ -296,8 +296,16 @@ def _drive(case, root, fs, probes, sig, done):
                 _guard("to_parquet", lambda: ddf.to_parquet("simfs://" + path), sig)
                 cols = [c for c in ddf.columns if c in {x["name"] for x in spec["cols"]}]
                 col = st["col"] if st["col"] in cols else cols[-1]
+                rkw = {}
+                if st["bits"] & 6 == 6:
+                    # every column, requested in another order: geometry= still decides
+                    perm = list(ddf.columns)
+                    random.Random(st["rs"]).shuffle(perm)
+                    rkw["columns"] = perm
+                    probes["dask_parquet_columns_reordered"] = 1
                 ddf = _guard("read_parquet_dask(geometry=)",
-                             lambda: read_parquet_dask(path, filesystem=fs, geometry=col), sig)
+                             lambda: read_parquet_dask(path, filesystem=fs, geometry=col,
+                                                       **rkw), sig)
                 dactive = col
                 probes["dask_parquet_geometry_kw"] = 1
                 if st["bits"] & 1:
@@ -307,7 +315,7 @@ def _drive(case, root, fs, probes, sig, done):
                     full = _guard("compute", lambda: ddf.compute(), sig)
                     pr = _guard("read_parquet_dask(geometry=, bounds=)",
                                 lambda: read_parquet_dask(path, filesystem=fs, geometry=col,
-                                                          bounds=tuple(b)), sig)
+                                                          bounds=tuple(b), **rkw), sig)
                     # whatever survives the pruning (possibly nothing), the frame must still
                     # report and use the requested column
                     _check_dask(pr, col, "d_parquet[geometry=, bounds=]", sig, probes, st,
